@@ -3,6 +3,7 @@ import Mimium.Proofs.StateTreeApply
 import Mimium.Model.Core
 import Mimium.Props.C08
 import Mimium.Props.C05
+import Mimium.Proofs.LiveCodingFull
 /-!
 # C06 — hot-swapping an unchanged program is inaudible
 
@@ -46,6 +47,30 @@ theorem C06_wasm_swap_same_layout (sk : Sk) (old prewarmed : List Nat) (h : old.
   have := applyPatch_whole old (resizeTo prewarmed sk.size) (by rw [hlen, h])
   rw [hlen] at this
   rw [this]
+
+/-- **one migration model serves both runtimes**: on a storage of the old layout's size, with the prewarmed `dsp` state the
+CLI hands over (all zeros, any length up to the new size: `main` touches no `dsp` state), `WasmDspRuntime::try_hot_swap`
+computes exactly the storage `Machine::new_resume` computes, for EVERY pair of layouts (so `Model/LiveCoding.lean: swapState`,
+defined with `vmResume`, is the WASM swap as well) -/
+theorem C06_wasm_swap_is_vm_resume (o n : Sk) (old : List Nat) (k : Nat) (hk : k ≤ n.size) (hlen : old.length = o.size) :
+    wasmSwap o n old (List.replicate k 0) = vmResume o n old := by
+  have hnext : resizeTo (List.replicate k 0) n.size = List.replicate n.size 0 := by
+    simp only [resizeTo, List.take_replicate, List.length_replicate, List.replicate_append_replicate]
+    congr 1; omega
+  cases hm : o.matches n with
+  | true =>
+    have hsz := matches_size o n hm
+    have hbp : buildPlan o n = none := by simp [buildPlan, hm]
+    simp only [wasmSwap, cliPlan, hbp, vmResume, hm, List.isEmpty_cons, Bool.and_false, Bool.false_eq_true, if_false, hnext,
+      List.all_cons, List.all_nil, Bool.and_true, Patch.inBounds, List.length_replicate, hlen, hsz]
+    simp only [Nat.zero_add, Nat.le_refl, decide_true, Bool.and_self, if_true, applyPatches, List.foldl]
+    have := applyPatch_whole old (List.replicate n.size 0) (by simp [hlen, hsz])
+    simp only [List.length_replicate] at this
+    rw [this]
+  | false =>
+    have hbp : buildPlan o n = some ⟨n.size, takeDiff o n⟩ := by simp [buildPlan, hm]
+    simp only [wasmSwap, cliPlan, hbp, vmResume, hm, Bool.false_and, Bool.false_eq_true, if_false, hnext, applyPlan?,
+      List.length_replicate]
 
 end Mimium.HotSwap
 
@@ -169,3 +194,134 @@ example :
   · simp [lay, ConfSL, ConfS]
 
 end Mimium.Core
+
+/-! ## a whole session: swapping to the SAME program, any number of times, at any times
+
+`Model/LiveCoding.lean` composes the reference semantics, the published layout (`Publish.publishFn`), the flat image of the
+state tree (`FlatTree.serialize` / `deserialize`) and the VM's migration (`HotSwap.vmResume`) into `session`: run, hot swap,
+run, ….  For a program of the class of C05's theorems the session in which every swap event names the running program
+returns exactly the samples of the uninterrupted run — the property as a theorem about PROGRAMS of the reference semantics
+(every program of the class, every event list: every split point, repeated swaps at one time, any number of times, every
+run length, every input stream). -/
+namespace Mimium.LiveCoding
+open Mimium.Core Mimium.FlatTree Mimium.Publish
+
+/-- a session without swap events is the plain run -/
+theorem sessionFrom_nil (fuel : Nat) (sr : UInt64) (inputs : Nat → List UInt64) (P : Prog) :
+    ∀ (k : Nat) (m : Machine), sessionFrom fuel sr [] inputs k P m = runFrom fuel P sr inputs k m
+  | 0, _ => rfl
+  | k + 1, m => by
+    have e0 : swapMany fuel sr (eventsAt [] m.t) P m = some (P, m) := rfl
+    rw [sessionFrom, runFrom, e0]
+    simp only
+    cases Machine.step fuel P sr m (inputs m.t) with
+    | error e => rfl
+    | ok r => obtain ⟨o, m'⟩ := r; simp only [sessionFrom_nil fuel sr inputs P k m']
+
+/-- **hot-swapping an unchanged program is inaudible — for programs.**  Let `P` be a program of the class of C05's
+evaluator theorems — `noStatefulInArms` (no `mem`, `delay` or call of a function with state inside an `if` arm, here and in
+the callees; calls of functions without state are allowed there), `SitesUnique` / `SitesOk` (the stateful sites of every
+function body pairwise distinct, ring lengths < 2^64) — whose `dsp` has the published layout `lay`; let `full` be the layout
+of ALL stateful sites of `dsp` (`fullFn`: the published cells plus the zero-sized children of the calls mirgen publishes
+nothing for), let `main` start the machine `m0`, and let the uninterrupted run keep its globals and a `dsp` state tree
+conforming to `full` at every sample (rings of the declared length, `self` values of the declared shape: typing facts).
+Then for EVERY list of swap events that all name `P` (any split points, any number of swaps, several at the same time),
+every run length `N` and every input stream, the session — each swap serialises the state tree under the published layout,
+migrates the words as `Machine::new_resume` does, reads them back under the published layout and re-runs `main` — returns
+exactly the samples of the uninterrupted run.
+(Proof: `vmResume sk sk w = some w` (C08 identity); the tree read back agrees with the old tree on every cell of `full`
+— `agree_deser_ser_ext`, on top of `C05_serialize_deserialize` —; `C05_eval_respects_agreement` for `full`, which covers
+`dsp`'s body for every program (`fullE_covers`); in the class `full` extends `lay` by zero-sized cells only (`pubE_ext`).) -/
+theorem C06_session_swap_same_program (fuel : Nat) (sr : UInt64) (P : Prog) (lay full : LNode)
+    (swaps : List (Nat × Prog)) (inputs : Nat → List UInt64) (N : Nat) (m0 : Machine)
+    (hsame : ∀ e ∈ swaps, e.2 = P)
+    (hpub : publishFn P P.dsp = some lay) (hfull : fullFn P P.dsp = some full)
+    (harms : noStatefulInArms P P.dsp.body = true) (hs : SitesUnique P) (hd : SitesOk P.dsp.body)
+    (hinit : Machine.init fuel P sr = .ok m0)
+    (hgood : ∀ j m, machineAfter fuel P sr inputs j m0 = some m → m.store = m0.store ∧ ConformsS full m.root) :
+    session fuel sr P swaps inputs N = runFrom fuel P sr inputs N m0 := by
+  obtain ⟨full', hf', hok, hsf, hself, hext, hcov⟩ := full_layout_exists P.fns.length P P.dsp lay hpub harms hs hd
+  have : full' = full := by
+    have h1 : fullFn P P.dsp = some full' := hf'
+    rw [hfull] at h1; exact (Option.some.inj h1).symm
+  subst this
+  have hl := C05_publish_ok P.fns.length P P.dsp lay hs hd hpub
+  have hag : MAgree full' m0 m0 := ⟨rfl, rfl, Agree.refl full' m0.root⟩
+  simp only [session, hinit]
+  rw [sessionFrom_same_program_ext fuel sr inputs P lay full' hpub hl hok hsf hext hself hcov m0 hinit swaps hsame N m0 m0
+    hag hgood, sessionFrom_nil]
+
+/-- the same for a program without globals: the global store is empty and stays empty, only the conformance of the
+`dsp` state along the uninterrupted run is assumed -/
+theorem C06_session_swap_same_program_no_globals (fuel : Nat) (sr : UInt64) (P : Prog) (lay full : LNode)
+    (swaps : List (Nat × Prog)) (inputs : Nat → List UInt64) (N : Nat) (m0 : Machine)
+    (hsame : ∀ e ∈ swaps, e.2 = P)
+    (hpub : publishFn P P.dsp = some lay) (hfull : fullFn P P.dsp = some full)
+    (harms : noStatefulInArms P P.dsp.body = true) (hs : SitesUnique P) (hd : SitesOk P.dsp.body)
+    (hglob : P.globals = []) (hinit : Machine.init fuel P sr = .ok m0)
+    (hconf : ∀ j m, machineAfter fuel P sr inputs j m0 = some m → ConformsS full m.root) :
+    session fuel sr P swaps inputs N = runFrom fuel P sr inputs N m0 := by
+  have h0 := (init_store_nil fuel P sr hglob m0 hinit).1
+  refine C06_session_swap_same_program fuel sr P lay full swaps inputs N m0 hsame hpub hfull harms hs hd hinit
+    (fun j m hm => ⟨?_, hconf j m hm⟩)
+  rw [h0]
+  exact machineAfter_invariant fuel P sr inputs (fun m => m.store = [])
+    (fun m o m' hi h => step_store_nil fuel P sr m _ o m' hi h) j m0 m h0 hm
+
+/-- in the narrow class (`noStateInArms`: no named call at all inside an `if` arm) the layout of all sites IS the published
+layout, so the conformance hypothesis speaks about the published layout -/
+theorem C06_session_swap_same_program_narrow (fuel : Nat) (sr : UInt64) (P : Prog) (lay : LNode)
+    (swaps : List (Nat × Prog)) (inputs : Nat → List UInt64) (N : Nat) (m0 : Machine)
+    (hsame : ∀ e ∈ swaps, e.2 = P)
+    (hpub : publishFn P P.dsp = some lay)
+    (harms : noStateInArms P P.dsp.body = true) (hs : SitesUnique P) (hd : SitesOk P.dsp.body)
+    (hinit : Machine.init fuel P sr = .ok m0)
+    (hgood : ∀ j m, machineAfter fuel P sr inputs j m0 = some m → m.store = m0.store ∧ ConformsS lay m.root) :
+    session fuel sr P swaps inputs N = runFrom fuel P sr inputs N m0 := by
+  obtain ⟨hself, _, hcov⟩ := C05_publishFn_visits P.fns.length P P.dsp lay harms hpub
+  have hl := C05_publish_ok P.fns.length P P.dsp lay hs hd hpub
+  have hag : MAgree lay m0 m0 := ⟨rfl, rfl, Agree.refl lay m0.root⟩
+  simp only [session, hinit]
+  rw [sessionFrom_same_program fuel sr inputs P lay hpub hl hself.symm hcov m0 hinit swaps hsame N m0 m0 hag hgood,
+    sessionFrom_nil]
+
+/-! non-vacuity: `dsp(x) = mem(x)`: every hypothesis holds, for every fuel, input stream and every run length (the root never
+stores a `self`, the layout has one `mem` cell); a session with three swaps, two of them at the same time -/
+example (fuel : Nat) (sr : UInt64) (inputs : Nat → List UInt64) (N : Nat) (m0 : Machine)
+    (hinit : Machine.init fuel ⟨[], [], ⟨"dsp", ["x"], .mem (.var "x") 0, none⟩⟩ sr = .ok m0) :
+    let P : Prog := ⟨[], [], ⟨"dsp", ["x"], .mem (.var "x") 0, none⟩⟩
+    session fuel sr P [(2, P), (2, P), (5, P)] inputs N = runFrom fuel P sr inputs N m0 := by
+  intro P
+  have hroot := (init_store_nil fuel P sr rfl m0 hinit).2.1
+  refine C06_session_swap_same_program_no_globals fuel sr P ⟨none, [.mem 0]⟩ ⟨none, [.mem 0]⟩ _ inputs N m0 ?_ rfl rfl rfl ?_ ?_ rfl
+    hinit ?_
+  · intro e he; simp at he; rcases he with rfl | rfl | rfl <;> rfl
+  · intro d hd; simp [P] at hd
+  · simp [SitesOk, siteLens, P]
+  · intro j m hm
+    have : m.root.selfv = none :=
+      machineAfter_invariant fuel P sr inputs (fun m => m.root.selfv = none)
+        (fun m o m' hi h => step_selfv_none fuel P sr m _ o m' rfl hi h) j m0 m (by rw [hroot]; rfl) hm
+    exact ⟨this, by simp [ConfSL, ConfS]⟩
+
+/-! the static hypotheses of `C06_session_swap_same_program` outside the narrow class: `g(y) = y*2`,
+`dsp(x) = mem(x) + (if x then 1 else g(x))`: mirgen publishes `[mem 0]` (nothing for the call in the `else` arm), the layout
+of all sites has the zero-sized child of the call in addition -/
+example :
+    let gF : FnDecl := ⟨"g", ["y"], .bin .mul (.var "y") (.lit 2), none⟩
+    let P : Prog := ⟨[], [gF], ⟨"dsp", ["x"],
+      .bin .add (.mem (.var "x") 0) (.ite (.var "x") (.lit 1) (.call "g" [.var "x"] 1)), none⟩⟩
+    publishFn P P.dsp = some ⟨none, [.mem 0]⟩ ∧ fullFn P P.dsp = some ⟨none, [.mem 0, .child 1 none []]⟩ ∧
+    noStateInArms P P.dsp.body = false ∧ noStatefulInArms P P.dsp.body = true ∧ SitesUnique P ∧ SitesOk P.dsp.body ∧
+    ExtL [.mem 0] [.mem 0, .child 1 none []] := by
+  intro gF P
+  refine ⟨rfl, rfl, rfl, rfl, ?_, ?_, ?_⟩
+  · intro d hd
+    simp only [P, List.mem_cons, List.not_mem_nil, or_false] at hd
+    subst hd; simp [SitesOk, siteLens, gF]
+  · simp [SitesOk, siteLens, siteLensL, P]
+  · have h2 : ExtL [] [LCell.child 1 none []] := extL_nil_of_zero _ (by simp [sizeCells, LCell.size, selfSize])
+    have := extL_append _ _ _ _ (extL_single (.mem 0) (.mem 0) (by simp [ExtC])) h2
+    simpa using this
+
+end Mimium.LiveCoding
